@@ -60,6 +60,20 @@ def make_value(vs, n, tiny=False):
             return tuple(items)
         if c == 'ndarray':
             return np.array(items) if items else np.array([], dtype=float)
+        if c == 'ndview':
+            # a non-contiguous view into a larger array
+            big = np.array([x for it in items for x in (it, it)]) if items else np.array([], dtype=float)
+            return big[::2]
+        if c == 'readonly':
+            a = np.array(items) if items else np.array([], dtype=float)
+            a.setflags(write=False)
+            return a
+        if c == 'series':
+            import pandas as pd
+
+            if vs.get('e') in ('str', 'longstr', 'none'):
+                return items  # (a Series of strings / None would create an object-dtype variable: outside the property's dtypes)
+            return pd.Series(items)
         raise ValueError(c)
     if k == 'nested':
         rows, cols = max(0, ln(vs['rows'])), int(vs['cols'])
@@ -130,6 +144,12 @@ def expect_whole(ref_arr, v, n):
         tmp[:] = v
     except Exception:
         return 'fail', None
+    if not isinstance(v, np.ndarray) and hasattr(v, '__len__') and not isinstance(v, str):
+        if len(v) not in (1, n):
+            return 'fail', None
+        if len(v) != n or _truncates(dt, list(v)) or _lossy(dt, list(v)):
+            return 'may', None
+        return 'ok', tmp
     if isinstance(v, np.ndarray):
         if v.size not in (1, n):
             return 'fail', None
@@ -189,7 +209,18 @@ def expect_add(v, dtype, n, default_dtype=None):
     else:
         if v is None:
             return 'may', None
-        flat = np.full(n, v)
+        if hasattr(v, '__len__') and not isinstance(v, str):
+            # array-likes that are neither sequences nor ndarrays (e.g. a pandas Series): NumPy broadcasting decides
+            try:
+                if len(v) not in (1, n):
+                    return 'fail', None
+                flat = np.full(n, v)
+            except Exception:
+                return 'may', None
+            if len(v) != n or flat.dtype == object:
+                return 'may', None
+        else:
+            flat = np.full(n, v)
     if use is not None:
         dt = np.dtype(DTYPES.get(use, use))
         if _truncates(dt, flat.tolist()) or _lossy(dt, flat.tolist()):
